@@ -41,6 +41,8 @@ def run(check: Check):
     fi = alg.apply
     check.analysed(fi)
     ff = FuncFlow.of(repo, fi)
+    if len(fi.positional_params) > 1:
+      roundcheck.check_no_client_filter(check, repo, fi, fi.positional_params[1])
     sites = [(fi, c) for c in roundcheck.inv_calls(ff)]
     # helper functions called from apply (hyp_cluster.expectation_step)
     for _, c in ff.calls():
@@ -101,6 +103,8 @@ def run(check: Check):
     for f in t.functions():
       n_key += check_function(check, ka, f, 'R-KEY')
   check.floor('R-KEY', 'key uses in step functions', n_key, 20)
+  from fjsa.props import c10
+  c10.hidden_state(check, all_algo_mods, 'R-HYP.state')
   _fed_prox(check)
   _mime_family(check, algs)
   _mime_control_variate(check)
